@@ -76,10 +76,11 @@ def build(cfg, values=None):
         F = sym_F(ctx, nF)
         Fc, P, T = V('Fc'), V('P'), V('T')
         if variant == 'cone0':
-            k_cone = upper(todict(K['fk0'](0, r2, L, F, m1, m2, n2, s)))
-            k_cyl = upper(todict(K['fk0_cyl'](r2, L, F, m1, m2, n2)))
-            for k in sorted(set(k_cone) | set(k_cyl)):
-                obs.append(('k0-cone0-vs-cyl[%d,%d]' % k, k_cone.get(k, 0), k_cyl.get(k, 0)))
+            if cfg.get('only') != 'kG0':
+                k_cone = upper(todict(K['fk0'](0, r2, L, F, m1, m2, n2, s)))
+                k_cyl = upper(todict(K['fk0_cyl'](r2, L, F, m1, m2, n2)))
+                for k in sorted(set(k_cone) | set(k_cyl)):
+                    obs.append(('k0-cone0-vs-cyl[%d,%d]' % k, k_cone.get(k, 0), k_cyl.get(k, 0)))
             g_cone = upper(todict(K['fkG0'](Fc, P, T, r2, 0, L, m1, m2, n2, s)))
             g_cyl = upper(todict(K['fkG0_cyl'](Fc, P, T, r2, L, m1, m2, n2)))
             for k in sorted(set(g_cone) | set(g_cyl)):
@@ -437,7 +438,10 @@ def configs(tier, seed):
     for q, model in enumerate(names):
         out.append({'variant': 'cone0', 'model': model, 'mn': (2, 2, 1), 's': 1 + (q + seed) % 2, 'group': '(i) cone(0)=cylinder:%s' % model, 'm': 2, 'n': 1, 'timeout_ms': 180000})
         out.append({'variant': 'mirror', 'model': model, 'mn': (2, 2, 1), 's': 1, 'group': '(iv) lower=mirror:%s' % model, 'm': 2, 'n': 1, 'timeout_ms': 180000})
+        # three terms along the meridian: the coupling terms with a factor i*k/(i^2 - k^2) need two non-zero indices of odd sum
+        out.append({'variant': 'cone0', 'model': model, 'mn': (3, 3, 1), 's': 1, 'only': 'kG0', 'group': '(i) cone(0)=cylinder:%s' % model, 'm': 3, 'n': 1, 'timeout_ms': 180000})
         if not quick:
+            out.append({'variant': 'cone0', 'model': model, 'mn': (3, 3, 1), 's': 1, 'group': '(i) cone(0)=cylinder:%s' % model, 'm': 3, 'n': 1, 'timeout_ms': 900000})
             out.append({'variant': 'cone0', 'model': model, 'mn': (2, 2, 2), 's': 2, 'group': '(i) cone(0)=cylinder:%s' % model, 'm': 2, 'n': 2, 'timeout_ms': 600000})
             out.append({'variant': 'mirror', 'model': model, 'mn': (2, 1, 2), 's': 2, 'group': '(iv) lower=mirror:%s' % model, 'm': 2, 'n': 2, 'timeout_ms': 600000})
             out.append({'variant': 'cone0', 'model': model, 'mn': (3, 2, 3), 's': 1, 'group': '(i) cone(0)=cylinder:%s' % model, 'm': 3, 'n': 3, 'timeout_ms': 900000})
